@@ -57,6 +57,7 @@ def run(prog: Program, rep, tier: str) -> None:
     rep.assumptions += ["scipy.integrate.solve_ivp reports a terminal event at a root of the event function",
                         "numpy / scipy kernels compute what their names say"]
     gates(prog, rep)
+    closures(prog, rep)
     residuals(prog, rep)
     # every quantity this property speaks about is computed from the user's callback values: the wrapper problems (scaling,
     # slacks) must hand them on without writing into the objects the callbacks returned (C04 / C11's rule on those constructs)
@@ -70,6 +71,9 @@ def run(prog: Program, rep, tier: str) -> None:
     c04.run_scaling_only(prog, sub)
     c04.slack_embedding(prog, sub)
     c04.pipeline(prog, sub)
+    # the KKT residual is computed from the SCALED problem's values: each entry of its gradient / Jacobian / Hessian must carry the
+    # exponent of its own row and column (C04's rule on ScaledProblem), or the test certifies a point of another problem
+    c04.run(prog, _SubReport(rep, keep=("scaled-problem-exponents", "exact-data-path")), "quick")
     feeds(prog, rep)
     # "variable bounds hold exactly": every accepted point is the component-wise clamp onto the bounds themselves (C15 / C05's rule)
     from . import c15
@@ -116,6 +120,28 @@ class _SubReport:
 
     def pin(self, *a):
         pass
+
+
+def closures(prog: Program, rep) -> None:
+    """event functions, lazy display entries and callbacks are closures; one created in a loop must bind the loop's value when it is
+    created (a default argument), not read the variable when it finally runs - otherwise every closure of the loop watches the
+    LAST index / iterate."""
+    from .common import late_binding_closures
+    canary = ast.parse("def f(idx, g):\n    evs = []\n    for j in idx:\n        def ev(z):\n            return g(z)[j]\n        evs.append(ev)\n    return evs\n"
+                       "def ok(idx, g):\n    evs = []\n    for j in idx:\n        def ev(z, j=j):\n            return g(z)[j]\n        evs.append(ev)\n    return evs\n")
+    if [len(late_binding_closures(f)) for f in canary.body] != [1, 0]:
+        raise AnalysisError("late-binding closure canary failed")
+    n = 0
+    for fi in prog.iter_functions():
+        if not prog.in_scope(fi) or not isinstance(fi.node, (ast.FunctionDef, ast.AsyncFunctionDef)) or getattr(fi, "parent", None) is not None:
+            continue
+        n += 1
+        for cl, var, esc in late_binding_closures(fi.node):
+            rep.fail("closure-binds-loop-value", fi.qualname, U(esc)[:80],
+                     f"VIOLATED: a closure created in a loop reads the loop's variable `{var}` when it runs, and it outlives the iteration (`{U(esc)[:60]}`): "
+                     f"all closures of the loop see the value of the last iteration", fi.loc(esc))
+    rep.ok("closure-binds-loop-value", "package", f"{n} functions: no closure that outlives its loop iteration reads a variable the loop re-binds")
+    rep.pin("functions examined for late-binding closures", n, 300)
 
 
 def gates(prog: Program, rep) -> None:
@@ -362,6 +388,8 @@ def residuals(prog: Program, rep) -> None:
     sw = prog.cls("pygradflow.integration.problem_switches.ProblemSwitches")
 
     def event_of(mname):
+        if mname not in sw.methods:
+            raise AnalysisError(f"ProblemSwitches.{mname} has vanished (the event factories are not in the recognised form)")
         m = sw.methods[mname]
         inner = list(m.nested.values())
         if len(inner) != 1:
